@@ -864,3 +864,120 @@ theorem readAll_feature (o : Oracles) (f : Feature) (hdr : Bool) (hwf : gffWF f 
     simp only [readCalls, hhdr, read_nil]
 
 end Biogo.Gff
+
+namespace Biogo.Gff
+open Biogo.BytesFeat Biogo.FeatIO
+
+/-- the `##sequence-region` line without its terminator -/
+def regionLine (name : Bytes) (s e : Int) : Bytes :=
+  35 :: 35 :: joinWith 32 [ofString "sequence-region", name, formatInt (zeroToOne s), formatInt e]
+
+theorem writeRegion_eq (name : Bytes) (s e : Int) (h : s < e) :
+    writeRegion name s e = .ok (regionLine name s e ++ [10], (regionLine name s e ++ [10]).length) := by
+  have : ¬ (s ≥ e) := by omega
+  simp only [writeRegion, this, if_false, regionLine, joinWith]
+  congr 2 <;> simp [ofString]
+
+theorem nameOK_unpack {s : Bytes} (h : nameOK s = true) :
+    s ≠ [] ∧ (∀ c ∈ s, isAsciiSpace c = false) ∧ trimmed s = true := by
+  simp only [nameOK, Bool.and_eq_true, Bool.not_eq_true', List.isEmpty_eq_false_iff, List.any_eq_false] at h
+  exact ⟨h.1.1, fun c hc => by simpa using h.1.2 c hc, h.2⟩
+
+theorem name_not_mem {s : Bytes} (h : nameOK s = true) (k : UInt8) (hk : isAsciiSpace k = true) : k ∉ s := by
+  intro hm
+  have := (nameOK_unpack h).2.1 k hm
+  rw [hk] at this; cases this
+
+theorem regionLine_facts (name : Bytes) (s e : Int) (hn : nameOK name = true) :
+    (10 : UInt8) ∉ regionLine name s e ∧ trimSpace (regionLine name s e) = regionLine name s e := by
+  constructor
+  · unfold regionLine
+    intro h
+    rcases List.mem_cons.mp h with h | h
+    · exact absurd h (by decide)
+    · rcases List.mem_cons.mp h with h | h
+      · exact absurd h (by decide)
+      · rcases mem_joinWith h with e1 | ⟨x, hx, hc⟩
+        · exact absurd e1 (by decide)
+        · simp only [List.mem_cons, List.not_mem_nil, or_false] at hx
+          rcases hx with rfl | rfl | rfl | rfl
+          · revert hc; decide
+          · exact name_not_mem hn 10 (by decide) hc
+          · exact formatInt_not_mem _ 10 (by simp) hc
+          · exact formatInt_not_mem _ 10 (by simp) hc
+  · apply trimSpace_of_trimmed
+    have : regionLine name s e =
+        (35 :: 35 :: (ofString "sequence-region" ++ 32 :: (name ++ 32 :: formatInt (zeroToOne s)))) ++ 32 :: formatInt e := by
+      simp [regionLine, joinWith]
+    rw [this]
+    apply trimmed_pair _ _ 32 (by simp) (formatInt_ne_nil e) _ (formatInt_ends e).2 (by decide)
+    simp only [startsWithSpace, bne_eq_false_iff_eq]
+    exact spaceLen_ascii_head 35 _ (by decide) (by decide)
+
+theorem region_step (o : Oracles) (md : Meta) (name : Bytes) (s e : Int) (hn : nameOK name = true)
+    (hs : inInt64 s = true) (he : inInt64 e = true) (hlt : s < e) :
+    commentMetaline o md ((regionLine name s e).drop 2) = .done (.ok (.region name md.moltype s e)) := by
+  have hsplit : splitOn 32 ((regionLine name s e).drop 2) =
+      [ofString "sequence-region", name, formatInt (zeroToOne s), formatInt e] := by
+    simp only [regionLine, List.drop_succ_cons, List.drop_zero]
+    apply splitOn_joinWith 32 _ (by simp)
+    intro x hx
+    simp only [List.mem_cons, List.not_mem_nil, or_false] at hx
+    rcases hx with rfl | rfl | rfl | rfl
+    · decide
+    · exact name_not_mem hn 32 (by decide)
+    · exact formatInt_not_mem _ 32 (by simp)
+    · exact formatInt_not_mem _ 32 (by simp)
+  have hz : inInt64 (zeroToOne s) = true := by
+    rw [inInt64_iff] at hs he ⊢
+    unfold zeroToOne
+    split <;> omega
+  unfold commentMetaline
+  simp only [hsplit]
+  have p2 : mustAtoPos [ofString "sequence-region", name, formatInt (zeroToOne s), formatInt e] 2 = .ok s :=
+    mustAtoPos_of (by simp) hz
+  have p3 : mustAtoi [ofString "sequence-region", name, formatInt (zeroToOne s), formatInt e] 3 = .ok e :=
+    mustAtoi_of (by simp) he
+  have p1 : idx [ofString "sequence-region", name, formatInt (zeroToOne s), formatInt e] 1 = (.ok name : Res Bytes) :=
+    idx_of_getElem? (by simp)
+  simp (decide := true) only [p1, p2, p3, bind_ok, pure_eq_ok, List.length_cons, List.length_nil, if_false, if_true]
+
+/-- reading `[##gff-version 2\\n] ##sequence-region name s+1 e\\n` -/
+theorem readAll_region (o : Oracles) (name : Bytes) (s e : Int) (hdr : Bool) (hn : nameOK name = true)
+    (hs : inInt64 s = true) (he : inInt64 e = true) (hlt : s < e) :
+    (readAll o ((if hdr then headerText else []) ++ (regionLine name s e ++ [10]))).1 =
+      [.item (.region name (-1) s e), .eof] := by
+  obtain ⟨hnl, htrim⟩ := regionLine_facts name s e hn
+  have hne : (regionLine name s e).isEmpty = false := rfl
+  have hpre : hasPrefix [35, 35] (regionLine name s e) = true := by simp [regionLine, hasPrefix]
+  have hread : ∀ (st : St) (ls : List Bytes), read o (regionLine name s e :: ls) st =
+      (.item (.region name st.md.moltype s e), ls, { st with line := st.line + 1 }) := by
+    intro st ls
+    rw [read]
+    simp only [hne, hpre, Bool.false_eq_true, if_false, if_true, region_step o _ name s e hn hs he hlt]
+    rfl
+  cases hdr with
+  | false =>
+    simp only [Bool.false_eq_true, if_false, List.nil_append]
+    unfold readAll trimmedLines
+    rw [lines_single _ hnl]
+    simp only [List.map_cons, List.map_nil, trimSpace_append_nl, htrim, List.length_cons, List.length_nil]
+    simp only [readCalls, hread, read_nil]
+  | true =>
+    simp only [if_true]
+    unfold readAll trimmedLines
+    rw [headerText_eq]
+    have : headerLine ++ [10] ++ (regionLine name s e ++ [10]) = headerLine ++ 10 :: (regionLine name s e ++ [10]) := by simp
+    rw [this, lines_append_line _ _ headerLine_facts.1, lines_single _ hnl]
+    simp only [List.map_cons, List.map_nil, trimSpace_append_nl, htrim, headerLine_facts.2, List.length_cons,
+      List.length_nil]
+    have hhdr : ∀ st : St, read o [headerLine, regionLine name s e] st =
+        (.item (.region name st.md.moltype s e), [], { line := st.line + 2, md := { st.md with version := 2 } }) := by
+      intro st
+      rw [read]
+      have h1 : headerLine.isEmpty = false := by decide
+      have h2 : hasPrefix [35, 35] headerLine = true := by decide
+      simp only [h1, h2, Bool.false_eq_true, if_false, if_true, header_step, hread]
+    simp only [readCalls, hhdr, read_nil]
+
+end Biogo.Gff
